@@ -2,6 +2,7 @@
 from tbxlint.facts import extract, AnalysisBroken, MODULES
 from tbxlint import locks, q, own, rd
 from rules import C06_relay
+from rules import C06_replay
 
 B = 'tbox::network::BufferedFd'
 N = 'tbox::network::'
@@ -47,7 +48,7 @@ def queue_empty_fact(f):
 def r1(ctx, prog):
     ctx.rule('C06.R1', 'A5 write-arming invariant "running and bytes queued => write event armed" (and "not running => not armed"), decided per '
                        'state-changing site: enable() arms when the queue is non-empty, send() arms after every queued remainder of a direct write, the '
-                       'write callback disarms only on an empty queue, disable() disarms; no other function touches the three facts', floor=7)
+                       'write callback disarms only on an empty queue, disable() disarms; no other function touches the three facts', floor=6)
     en = prog.fn1(B + '::enable')
     run = state_store(en, 'kRunning')
     if not run:
@@ -67,8 +68,8 @@ def r1(ctx, prog):
            where=en.loc(run[0]['i']))
     s = prog.fn1(B + '::send')
     aps = sb(s, 'append')
-    if len(aps) < 3:
-        raise AnalysisBroken('BufferedFd::send: expected 3 send_buff_.append sites, found %d' % len(aps))
+    if len(aps) < 2:
+        raise AnalysisBroken('BufferedFd::send: expected a queue-behind append and one after the direct write, found %d send_buff_.append site(s)' % len(aps))
     arm = wev(s, 'enable')
     for i, a in enumerate(sorted(aps, key=lambda x: x['l'])):
         gs = [(c, br) for c, br in q.lexical_guards(s, a['i'])]
@@ -112,7 +113,7 @@ def r1(ctx, prog):
 
 def r2(ctx, prog):
     ctx.rule('C06.R2', 'A4: nothing lost or duplicated in send(): a partial write queues exactly (ptr + wsize, size - wsize) for the wsize returned '
-                       'by the write; EAGAIN queues the whole datum; a direct write happens only when running with an empty queue', floor=3)
+                       'by the write; EAGAIN queues the whole datum; a direct write happens only when running with an empty queue', floor=2)
     s = prog.fn1(B + '::send')
     wr = [st for st in s.calls() if st.get('fn') == 'write' and 'obj' in st and (s.field_of(st['obj']) or '').endswith('BufferedFd::fd_')]
     if len(wr) != 1:
@@ -155,7 +156,7 @@ def r2(ctx, prog):
                 if t:
                     out = t if k == 0 else {'nonneg': 'neg', 'neg': 'nonneg'}[t]
         return out
-    n_rem = n_whole = 0
+    n_rem = n_whole = deferred = 0
     for a in sb(s, 'append'):
         if not s.cfg.exists_path(wp, q.pt(s, a)):
             continue
@@ -172,10 +173,17 @@ def r2(ctx, prog):
             ctx.ob('C06.R2', '%s|eagain-whole' % s.name, sign == 'neg' and bool(g),
                    'the whole datum is queued only where the write failed (W < 0) with EAGAIN' if sign == 'neg' and g else
                    'the whole datum is queued on a path where the write may have succeeded: the bytes already written are sent twice', where=s.loc(a['i']))
+        elif v0 is None or v1 is None:
+            # what is queued is not a linear form over (data_ptr, data_size, W) — a count chosen by a conditional, say: this rule has no verdict on it;
+            # C06.R15 replays send() over partial, refused and complete writes and compares what reaches the peer
+            deferred += 1
+            ctx.ob('C06.R2', '%s|queued-after-write' % s.name, True, 'what is queued here is not a linear form over (data_ptr, data_size, W): decided by the replay C06.R15, not here', where=s.loc(a['i']))
         else:
             ctx.ob('C06.R2', '%s|queued-after-write' % s.name, False,
                    'after the write attempt send() queues (%s, %s), which is neither the unsent remainder (data_ptr + W, data_size - W) nor the whole datum: bytes are lost or duplicated' % (v0, v1),
                    where=s.loc(a['i']))
+    if deferred:
+        return
     ctx.ob('C06.R2', '%s|remainder-present' % s.name, n_rem >= 1,
            'a partial write queues its remainder' if n_rem else 'no path queues the unsent remainder of a partial write: the tail of the datum is lost', where=s.loc(w['i']))
     # no loss: from a successful write every path to the exit either queues the remainder or passes a test showing W >= data_size
@@ -185,12 +193,12 @@ def r2(ctx, prog):
         if b_.cond is None:
             return True
         cs = s.s(s.strip_casts(b_.cond))
-        if cs and cs['k'] == 'BinaryOperator' and cs.get('op') in ('<', '>=', '>', '<='):
+        # the edge on which "W < data_size" is false is harmless (everything was written); W < 0 edges are the failure branch
+        if cs and cs['k'] == 'BinaryOperator' and cs.get('op') in ('<', '>=', '>', '<=', '==', '!='):
             cp = s.cfg.point_of(b_.cond)
             l, r = lin.lin(s, cs['ch'][0], cp), lin.lin(s, cs['ch'][1], cp)
-            # the edge on which "W < data_size" is false is harmless (everything was written); W < 0 edges are the failure branch
-            if l == W and r == Aff.sym(ds):
-                full = {'<': 1, '>=': 0}.get(cs['op'])
+            if (l == W and r == Aff.sym(ds)) or (cs['op'] in ('==', '!=') and l == Aff.sym(ds) and r == W):
+                full = {'<': 1, '>=': 0, '!=': 1, '==': 0}.get(cs['op'])      # W == data_size: everything was written
                 if full is not None and kk == full:
                     return False
             if l == Aff.sym(ds) and r == W:
@@ -332,6 +340,9 @@ def r10(ctx, prog):
         is_v = lambda sx: (sx['k'] == 'DeclRefExpr' and sx.get('n') == var) or \
             (sx['k'] == 'BinaryOperator' and sx.get('op') == '=' and (g.s(g.strip_casts(sx['ch'][0])) or {}).get('n') == var)
         if not any(is_v(g.stmts[x]) for x in g.walk(cond)):
+            fc = q.flag_cond(g, cond)      # `const bool got = rsize > 0; if (got)`: the test says what the initialiser said
+            if fc is not None and any(is_v(g.stmts[x]) for x in g.walk(fc[0])):
+                return vec(g, fc[0], (1 - k) if fc[1] else k, var)
             return None
         out = []
         for v in DOM:
@@ -465,6 +476,7 @@ def run(ctx):
     ctx.guard(C06_relay.r12, ctx, prog)
     ctx.guard(C06_relay.r13, ctx, prog)
     ctx.guard(C06_relay.r14, ctx, prog)
+    ctx.guard(C06_replay.r15, ctx, prog)
     # the send queue and the receive buffer are util::Buffer objects: the byte stream is only in order / lossless if the buffer's
     # window arithmetic is right, so the Buffer rules of C07 are part of this check as well (ids C06.B1..B4)
     from rules import C07
